@@ -143,3 +143,7 @@ func Verif_C03_S4_RestartLayout() {
 	}
 	vnd.Cover("restored")
 }
+
+// Verif_C03_S5_RestartRoundTrip: what was exported by a completed commit resolves to the
+// same blocks, seeds and write offsets after the list is rebuilt from the state file.
+func Verif_C03_S5_RestartRoundTrip() { verifScenarioRestartRoundTrip() }
